@@ -198,7 +198,7 @@ class Runner:
         k.log("proc-start", index=i, pid=proc.pid, kind=kind)
         st.variant = spec.get("variant", "old")
         main = {"sched": self.sched_main, "cli": self.cli_main, "audit": self.audit_main,
-                "deprecate": self.deprecate_main, "fix": self.fix_main}[kind]
+                "deprecate": self.deprecate_main, "fix": self.fix_main, "relocate": self.relocate_main}[kind]
         proc.main_actor = k.spawn("C:%d" % proc.pid, lambda: main(proc, spec, st), proc.pid, "caller")
         crash = spec.get("crash")
         if crash:
@@ -238,11 +238,20 @@ class Runner:
         k, w = self.k, self.w
         x, att, sig = jf["x"], jf.get("attempt", 0), SIGS[jf["sig"]]
         when = jf.get("when", "body")
-        kind = {"body": "body-start", "start": "runner-start", "spawn": "spawn"}[when]
+        kind = {"body": "body-start", "start": "runner-start", "spawn": "spawn", "adopted": "state"}[when]
         target = {}
 
         def match(ev):
             p = ev[5]
+            if when == "adopted":
+                # a scheduler adopted a running process of an earlier run: that process is the target
+                if not (p.get("where") == "aio_submit" and p.get("new") == "RUNNING") or (x is not None and p.get("x") != x):
+                    return False
+                alive = [q.pid for q in w.procs.values() if q.kind == "job" and q.alive and q.x == p.get("x")]
+                if not alive:
+                    return False
+                target["pid"] = alive[0]
+                return True
             if p.get("x") != x:
                 return False
             if when == "body" and p.get("attempt") != att:
@@ -259,7 +268,7 @@ class Runner:
             else:
                 w.signal_process(pid, sig)
 
-        self.on_nth_event(kind, jf.get("nth", 1), jf.get("delay", 0), "jobfault-%d" % x, fire, match=match)
+        self.on_nth_event(kind, jf.get("nth", 1), jf.get("delay", 0), "jobfault-%s-%s" % (x, when), fire, match=match)
 
     # ------------------------------------------------------------ plan interpreter
     def tok(self, st, ti):
@@ -305,6 +314,13 @@ class Runner:
                 init.append(S.Pre(src=out))
             elif emb == "explicit":
                 explicit.append(u)
+            elif isinstance(emb, list) and emb[0] == "outpre":
+                # a pre-task attached to the *output* of upstream emb[1] (a wrapper built after
+                # its producer was sealed) that refers to the output of u
+                if st.out[emb[1]].__xpm__._sealed:
+                    pre.append(S.Pre(src=out))      # wrapper already frozen by an earlier consumer
+                else:
+                    st.out[emb[1]].add_pretasks(S.Pre(src=out))
             else:
                 raise AssertionError(emb)
         task = cls(**kwargs)
@@ -656,6 +672,23 @@ class Runner:
         k.log("deprecated", tree=self.tree_snapshot(), olddirs={str(x): d for x, d in self.w.jobdir_variant.get("old", {}).items()})
         self.w.end_process(proc, 0)
 
+    def relocate_main(self, proc, spec, st):
+        """History step: the workspace has been moved, so the absolute links created by
+        earlier link-mode repairs point to where the folders used to be."""
+        jd = self.w.ws / "jobs"
+        n = 0
+        for t in sorted(os.listdir(jd)) if jd.is_dir() else []:
+            for h in sorted(os.listdir(jd / t)):
+                p = jd / t / h
+                if p.is_symlink():
+                    target = os.readlink(p)
+                    p.unlink()
+                    os.symlink("/old-location" + target, p)
+                    n += 1
+        self.k.log("relocated", links=n)
+        self.k.count("fault:workspace-moved")
+        self.w.end_process(proc, 0)
+
     def fix_main(self, proc, spec, st):
         from experimaestro.tools.jobs import fix_deprecated
 
@@ -732,6 +765,7 @@ class Runner:
             "rels": self.all_rels(),
             "orphans": self.run_orphans() if self.scn.get("cfg", {}).get("orphans") else None,
             "tree": self.tree_snapshot() if self.scn.get("cfg", {}).get("tree") else None,
+            "markers": {str(x): w.marker_exists(x, "done") for x in sorted(w.jobdir)},
             "jobdir_variant": {v: {str(x): d for x, d in m.items()} for v, m in self.w.jobdir_variant.items()},
         }
 
